@@ -35,7 +35,9 @@ Definition bound_ok (c : cmd) (clk : Z) : bool :=
   end.
 
 (* the rules of simulator.py's docstrings and guards, as a function of the run
-   state, the replication state, "clock >= end of the replication" and, for
+   state, the replication state, "clock > end of the replication" (a clock
+   exactly at the end does not refuse: a run paused there with events at the end
+   time still pending can be resumed and then ends the replication) and, for
    bounded runs, the validity of the bound *)
 Definition table (c : cmd) (r : runst) (p : replst) (past_end bok : bool) : cres :=
   match c with
@@ -49,7 +51,7 @@ Definition table (c : cmd) (r : runst) (p : replst) (past_end bok : bool) : cres
   | CCleanup => ResOk
   end.
 
-Definition past_end (s : sim) : bool := end_time s <=? clock s.
+Definition past_end (s : sim) : bool := end_time s <? clock s.
 
 Definition table_of (s : sim) (c : cmd) : cres :=
   table c (rs s) (ps s) (past_end s) (bound_ok c (clock s)).
@@ -273,7 +275,7 @@ Fixpoint observed_ok (cs : list cmd) (obs : list lsnap) (r : runst) (p : replst)
   match cs, obs with
   | [], [] => true
   | c :: cr, o :: orest =>
-      cres_eqb (l_res o) (table c r p (endt <=? clk) (bound_ok c clk))
+      cres_eqb (l_res o) (table c r p (endt <? clk) (bound_ok c clk))
       && match mon_feed (mon_reset c (l_res o) m) (l_ntfs o) with
          | Some m1 =>
              mon_quiet m1 && mon_agrees m1 (l_rs o) (l_ps o)
